@@ -1008,3 +1008,47 @@ where
 {
     FlatEx::<Val<I, F>, ValOpsFactory<I, F>, ValMatcher>::parse(text)
 }
+
+// Verification hooks: forwarding wrappers and function-pointer getters for the private operator
+// functions, instantiated at `Val<i32, f64>`. No logic. Compiled only with `--cfg exmex_verif`.
+#[cfg(exmex_verif)]
+#[doc(hidden)]
+pub mod verif_hooks {
+    use super::Val;
+    pub type V = Val<i32, f64>;
+    macro_rules! fwd1 {
+        ($($v:ident, $p:ident => $f:ident);* $(;)?) => { $(
+            pub fn $v(a: V) -> V { super::$f(a) }
+            pub fn $p() -> fn(V) -> V { super::$f::<i32, f64> }
+        )* }
+    }
+    macro_rules! fwd2 {
+        ($($v:ident, $p:ident => $f:ident);* $(;)?) => { $(
+            pub fn $v(a: V, b: V) -> V { super::$f(a, b) }
+            pub fn $p() -> fn(V, V) -> V { super::$f::<i32, f64> }
+        )* }
+    }
+    fwd2!(
+        v_pow, p_pow => pow; v_add, p_add => add; v_sub, p_sub => sub; v_mul, p_mul => mul;
+        v_div, p_div => div; v_min, p_min => min; v_max, p_max => max; v_rem, p_rem => rem;
+        v_bitwise_or, p_bitwise_or => bitwise_or; v_bitwise_and, p_bitwise_and => bitwise_and;
+        v_bitwise_xor, p_bitwise_xor => bitwise_xor; v_right_shift, p_right_shift => right_shift;
+        v_left_shift, p_left_shift => left_shift; v_and, p_and => and; v_or, p_or => or;
+        v_atan2, p_atan2 => atan2; v_dot, p_dot => dot; v_cross, p_cross => cross;
+        v_component, p_component => component;
+    );
+    fwd1!(
+        v_abs, p_abs => abs; v_signum, p_signum => signum; v_sin, p_sin => sin;
+        v_round, p_round => round; v_cos, p_cos => cos; v_tan, p_tan => tan;
+        v_asin, p_asin => asin; v_acos, p_acos => acos; v_atan, p_atan => atan;
+        v_sinh, p_sinh => sinh; v_cosh, p_cosh => cosh; v_tanh, p_tanh => tanh;
+        v_asinh, p_asinh => asinh; v_acosh, p_acosh => acosh; v_atanh, p_atanh => atanh;
+        v_floor, p_floor => floor; v_ceil, p_ceil => ceil; v_trunc, p_trunc => trunc;
+        v_fract, p_fract => fract; v_exp, p_exp => exp; v_sqrt, p_sqrt => sqrt;
+        v_cbrt, p_cbrt => cbrt; v_ln, p_ln => ln; v_log2, p_log2 => log2;
+        v_log10, p_log10 => log10; v_swap_bytes, p_swap_bytes => swap_bytes;
+        v_to_le, p_to_le => to_le; v_to_be, p_to_be => to_be; v_fact, p_fact => fact;
+        v_minus, p_minus => minus; v_cast_to_int, p_cast_to_int => cast_to_int;
+        v_cast_to_float, p_cast_to_float => cast_to_float; v_length, p_length => length;
+    );
+}
